@@ -9,6 +9,34 @@ from .refstore import RefStore, tup
 EXPANDING = ("extend", "widen", "cwd")
 
 
+class LatticeTracker:
+    """History of the lattice as seen from outside: after every operation, for every entry (by key) the
+    operation number in which its probability or predecessor last changed, and whether it was scheduled
+    for expansion at that time (delayed >= expand_now)."""
+
+    def __init__(self):
+        self.h = {}
+        self.matcher_id = None
+        self.opno = 0
+
+    def update(self, sess, out):
+        m = sess.matcher
+        self.opno += 1
+        if m is None or m.lattice is None:
+            return
+        if out.kind in ("match", "rematch", "retry", "fresh") or id(m) != self.matcher_id:
+            self.h = {}
+        self.matcher_id = id(m)
+        E = m.expand_now
+        for col in m.lattice.values():
+            for layer in col.o:
+                for key, e in layer.items():
+                    cur = (float(e.logprob), tuple(sorted(repr(p.key) for p in e.prev)))
+                    old = self.h.get(key)
+                    if old is None or old[0] != cur:
+                        self.h[key] = (cur, self.opno, e.delayed >= E)
+
+
 class Ctx:
     """Per-session reference data shared by the oracles."""
 
@@ -32,6 +60,7 @@ class Ctx:
         self.inmem = doc.get("backend", "inmem") in ("inmem", "inmem_api", "pickle")
         self.fragile = 0
         self.probes = {}
+        self.tracker = LatticeTracker()
 
     def probe(self, name, n=1):
         self.probes[name] = self.probes.get(name, 0) + n
@@ -141,17 +170,20 @@ def check_c02(ctx, sess, out):
         if not close(r.lp, e.logprob, 1e-9, 1e-9):
             kind = "emitting" if e.obs_ne == 0 else "non-emitting"
             cls = "C02/logprob/%s/%s" % (model.family, kind)
-            # Root-cause attribution for the listed finding D14 (stale derived entry).  The matcher has
-            # been expanded at least once (widen / extend) and, for the predecessor p on the path, either
-            #  - p is postponed again (p.delayed > expand_now): it was replaced in place / re-pruned after
-            #    this entry had been derived from it and will only be expanded again by a later widening, or
-            #  - p is ALSO among this entry's rejected predecessors (`prev_other`): the entry was derived
-            #    again from the replaced p and the new value was rejected because it was worse.
-            # An expanded predecessor that is not in prev_other (e.g. an entry that was updated but never
-            # re-expanded) is NOT covered and stays an unlisted violation.
-            E_now = sess.matcher.expand_now
-            if E_now > 0 and i >= 1 and (lb[i - 1].delayed > E_now or lb[i - 1] in e.prev_other):
-                cls = "C02/logprob/stale-after-expansion"
+            # Root-cause attribution for the listed finding D14 (stale derived entry), from the HISTORY of
+            # the lattice that the simulator recorded after every operation (LatticeTracker): the
+            # predecessor p on the path was created or replaced (probability / predecessor changed) in a
+            # LATER operation than the one in which this entry last changed, i.e. this entry was derived
+            # from an earlier version of p and has not been (successfully) derived again; and when p last
+            # changed it was properly scheduled (delayed >= expand_now then), so that the missing
+            # re-derivation is the documented consequence of in-place replacement (re-postponed by
+            # pruning, re-derivation rejected as worse, or forbidden by the visited-node rule) and not an
+            # entry that was updated without ever being expanded again.
+            tr = getattr(ctx, "tracker", None)
+            if tr is not None and sess.matcher.expand_now > 0 and i >= 1:
+                te, tp = tr.h.get(e.key), tr.h.get(lb[i - 1].key)
+                if te is not None and tp is not None and tp[1] > te[1] and tp[2]:
+                    cls = "C02/logprob/stale-after-expansion"
             vs.append(V(cls, where + " reported=%r model=%r" % (e.logprob, r.lp), out))
             return vs
         if r.length != e.length:
